@@ -970,6 +970,15 @@ class segment_if(x12_node):
             #self.logger.error(err_str)
             ref_des = '%02i' % (child_count + 1)
             err_value = seg_data.get_value(ref_des)
+            if child_count > 0:
+                # Register an element node for the first excess position, otherwise
+                # the error lands on the element validated last in the previous segment
+                errh.add_ele(self.get_child_node_by_idx(child_count - 1))
+                ele_node = getattr(errh, 'cur_ele_node', None)
+                if ele_node is not None and hasattr(ele_node, 'ele_pos'):
+                    ele_node.ele_pos = child_count + 1
+                    ele_node.subele_pos = None
+                    ele_node.ele_ref_num = None
             errh.ele_error('3', err_str, err_value, ref_des)
             valid = False
 
